@@ -67,7 +67,15 @@ def canon(v):
         return repr(v)
     if isinstance(v, (set, frozenset)):
         return "set(" + ",".join(sorted(canon(x) for x in v)) + ")"
-    return "%s:%r" % (type(v).__name__, v) if not isinstance(v, (str, int, bool, type(None))) else repr(v)
+    if isinstance(v, (str, int, bool, type(None))) and type(v) in (str, int, bool, type(None)):
+        return repr(v)
+    try:
+        r = repr(v)
+    except Exception:  # noqa: BLE001
+        r = "<unreprable>"
+    if " at 0x" in r:
+        r = "<obj>"
+    return "%s:%s" % (type(v).__name__, r)
 
 
 def make_resolver(coord):
